@@ -6,6 +6,9 @@
            STAT norecycle_* : the same model without node-index recycling (is recycling observable?)
    LD4LEX  DIFF lex         : lex_line_d4_res on every sample line = Ok token / Err / panic of the
                               Rust lexer
+           DIFF file-semantics : (spec side, no implementation involved) the truth table of
+                              eval_d4 on the file = the truth table of the source formula the
+                              reference compiler compiled; DIFF file-maxvar: d4_maxvar vs nvars
    There is no oracle here: what the loaded vector must satisfy is judged by kind C01 (check_wf,
    truth table); this kind only ties the loader model to the code. *)
 open Blocks
@@ -61,6 +64,22 @@ let check_load (b : block) : verdict list =
         | Some [nv] when int_of_string nv = Conv.int_of_nat mn -> ()
         | Some [nv] -> add (Diff ("load-nvars", Printf.sprintf "number_of_variables: model %d impl %s" (Conv.int_of_nat mn) nv))
         | _ -> add (Diff ("block", "no nvars line"))));
+    (* the file semantics of the theorem C01_d4_loader_sem against the generator's truth table *)
+    (match find b "src_models", Mdl.LoadD4.lex_lines_d4 clines with
+     | Some ms, Some toks when n <= 10 ->
+       let mask_of_cfg (m : Model.z list) : int =
+         List.fold_left (fun acc l -> let v = Conv.int_of_z l in if v > 0 then acc lor (1 lsl (v - 1)) else acc) 0 m in
+       let src = List.sort compare (List.map int_of_string ms) in
+       let mine = List.sort compare (List.map mask_of_cfg (Mdl.D4Sem.d4_models toks cn)) in
+       bump "file_semantics_compared";
+       if src <> mine then
+         add (Diff ("file-semantics", Printf.sprintf "eval_d4 of the file has %d models, the source formula %d"
+                      (List.length mine) (List.length src)));
+       (match model with
+        | Some (_, mn) when Conv.int_of_nat mn <> max n (Conv.int_of_nat (Mdl.D4Sem.d4_maxvar toks)) ->
+          add (Diff ("file-maxvar", "number_of_variables is not max(n, d4_maxvar)"))
+        | _ -> ())
+     | _ -> ());
     (* recycling experiment: never a verdict, only statistics.  recycling_happened = the graph
        built with recycling has fewer node slots than the one built without, i.e. some add_node
        took a slot from the free list *)
